@@ -376,6 +376,37 @@ theorem contract_table (xs : List Nat) (ts : List (List Int))
       (triggers (.table xs ts)) :=
   ⟨sound_table xs ts, contracting_table xs ts, checking_table xs ts har, resp_table xs ts⟩
 
+/-- the constructor `Table::new` (modelled by `PK.mkTable`) establishes the arity precondition … -/
+theorem mkTable_arity (xs : List Nat) (ts : List (List Int)) :
+    ∀ t ∈ ts.filter (fun t => t.length == xs.length), t.length = xs.length := by
+  intro t ht
+  have := (List.mem_filter.1 ht).2
+  simpa using this
+
+/-- … without changing the meaning: a tuple of another arity never matches -/
+theorem holds_mkTable (a : Asg) (xs : List Nat) (ts : List (List Int)) :
+    holds a (mkTable xs ts) = holds a (.table xs ts) := by
+  simp only [mkTable, holds, List.any_filter]
+  congr 1
+  funext t
+  by_cases h : t == xs.map a
+  · have : t.length = xs.length := by rw [eq_of_beq h]; simp
+    simp [h, this]
+  · simp [h]
+
+/-- **contract of a constructed `Table`**, no precondition -/
+theorem contract_mkTable (xs : List Nat) (ts : List (List Int)) :
+    Contract (prune (mkTable xs ts)) (fun a => holds a (.table xs ts) = true) (triggers (mkTable xs ts)) := by
+  have h := contract_table xs (ts.filter (fun t => t.length == xs.length)) (mkTable_arity xs ts)
+  have e : (fun a => holds a (PK.table xs ts) = true) =
+      (fun a => holds a (PK.table xs (ts.filter (fun t => t.length == xs.length))) = true) := by
+    funext a
+    have := holds_mkTable a xs ts
+    simp only [mkTable] at this
+    rw [this]
+  rw [e]
+  exact h
+
 /-! ### the fuel of `tableLoop` is never exhausted
 
 `pruneTable` runs the Rust `loop { … }` with fuel `size xs ctx + 1`, where `size` is the total
